@@ -17,7 +17,7 @@ class Unit:
 
     def __init__(self, name, target, make_inputs, post, contracts=None, inline=None, loops=None,
                  env=None, options=None, closure=None, replay=None, doc="", max_paths=600,
-                 allow_unreturned_cut=True, prop_clause=None, expect_paths=None):
+                 allow_unreturned_cut=True, prop_clause=None, expect_paths=None, writes=None):
         self.name = name
         self.target = target
         self.make_inputs = make_inputs
@@ -32,6 +32,9 @@ class Unit:
         self.doc = doc
         self.max_paths = max_paths
         self.prop_clause = prop_clause
+        # frame: attribute names the function may write on its (object) inputs; anything else written,
+        # added or removed is a failed `frame.auto` obligation (catches memoisation / hidden state)
+        self.writes = set(writes or ())
 
     def verify(self):
         t0 = time.time()
@@ -49,8 +52,46 @@ class Unit:
         closure = self.closure(interp) if callable(self.closure) else (self.closure or [])
         fn = VFunc(ext, closure, qualname=self.target)
 
+        def _objects(args, kwargs, C):
+            from .values import VObj, VTuple, VList, VDict
+            seen, out = set(), []
+
+            def walk(v, depth=0):
+                if id(v) in seen or depth > 4:
+                    return
+                seen.add(id(v))
+                if isinstance(v, VObj):
+                    out.append(v)
+                    for x in list(v.attrs.values()):
+                        walk(x, depth + 1)
+                elif isinstance(v, (VTuple, VList)):
+                    for x in v.items:
+                        walk(x, depth + 1)
+                elif isinstance(v, VDict):
+                    for k, x in v.entries:
+                        walk(k, depth + 1)
+                        walk(x, depth + 1)
+                elif isinstance(v, (list, tuple)):
+                    for x in v:
+                        walk(x, depth + 1)
+                elif isinstance(v, dict):
+                    for x in v.values():
+                        walk(x, depth + 1)
+            for a in args:
+                walk(a)
+            for a in kwargs.values():
+                walk(a)
+            if isinstance(C, dict):
+                for a in C.values():
+                    walk(a)
+            return out
+
         def mk(st):
-            return self.make_inputs(st, interp)
+            args, kwargs, C = self.make_inputs(st, interp)
+            objs = _objects(args, kwargs, C)
+            st.ghost["frame_snapshot"] = [(o, dict(o.attrs)) for o in objs]
+            st.ghost["illegal_writes"] = []
+            return args, kwargs, C
 
         def chk(st, C, r):
             if r.outcome == "cut":
@@ -58,6 +99,19 @@ class Unit:
             if r.outcome in ("return", "raise"):
                 n0 = len(st.obligations)
                 self.post(st, interp, C, r)
+                if "*" not in self.writes:
+                    import z3 as _z3
+                    bad = []
+                    for o, snap in st.ghost.get("frame_snapshot", []):
+                        for k in set(o.attrs) | set(snap):
+                            if k in self.writes or k.startswith("__"):
+                                continue
+                            if k not in snap or k not in o.attrs or o.attrs[k] is not snap[k]:
+                                from .values import VList as _VL, VDict as _VD
+                                bad.append("%s.%s" % (o.cls[1] if isinstance(o.cls, tuple) else o.cls, k))
+                    bad += list(st.ghost.get("illegal_writes", []))
+                    st.oblige("frame.auto: writes nothing outside its frame %s" % (sorted(self.writes) or "[]"),
+                              _z3.BoolVal(not bad), kind="frame", info={"written": sorted(set(bad))}, assume_after=False)
                 for ob in st.obligations[n0:]:
                     ob.info.setdefault("exit", r.outcome if r.outcome == "return" else "raise %s" % r.exc)
         try:
